@@ -132,7 +132,7 @@ func c05(c *Ctx) {
 	P, R := c.P, c.R
 	R.Explain("R05.1", "T-CONSTARG: from handleFetch/handleStore/handleSearch (also via handleUID) every call that reaches the permitExpunge parameter of a flush-like function (derived: popResponders and every wrapper forwarding a bool parameter into it) passes the constant false, context-sensitively through wrapper parameters; and every flush-like call in a static-call ancestor of those handlers that shares a path with the dispatch is false too (the trailing flush of handleSelectedCommand).")
 	R.Explain("R05.2", "popResponders evaluated with permitExpunge=false: every append to the returned slice is dominated by the not-*expunge edge of a type test on the appended element; appends under the *targetedExists edge are dominated by the false edge of the skip-set Contains test; the *expunge edge adds the id to the skip set and appends to the remainder that is stored back to State.res.")
-	R.Explain("R05.3", "T-CALLERS: Responder.handle is invoked only in State.flushResponses and, under idleCh != nil, in State.PushResponder; State.idleCh is written only by beginIdle/endIdle.")
+	R.Explain("R05.3", "T-CALLERS: Responder.handle is invoked only in State.flushResponses and, under idleCh != nil, in State.PushResponder; State.idleCh is written only by the IDLE implementation (beginIdle/endIdle, or State.Idle when written inline).")
 	R.Explain("R05.4", "T-MUST (liveness): in NOOP, CHECK, EXPUNGE, UID EXPUNGE, CLOSE, MOVE, STATUS, APPEND handlers and beginIdle every path to the tagged OK passes a flush with constant true, except along 'mailbox not selected' edges.")
 	R.Explain("R05.5", "T-DOM: each tagged OK built by handleFetch/Store/Search is dominated by Mailbox.ExpungeIssued(), whose true edge adds ItemExpungeIssued to the items passed to that OK; ExpungeIssued scans State.res for *expunge.")
 
@@ -549,6 +549,19 @@ func c05callers(c *Ctx) {
 				R.Pass("R05.3", key, P.Pos(cs.Pos()), "invoked from a helper that only flushResponses calls")
 				continue
 			}
+			if !c.isAnchor(top, "internal/state.(*State).flushResponses", "internal/state.(*State).PushResponder") && c.onlyCalledFrom(top, 1, "internal/state.(*State).PushResponder") {
+				// a helper of PushResponder: the idle-only condition must hold at every call of the helper
+				okAll := true
+				for _, cs2 := range P.CallersOf(top) {
+					if !c.dominatedByIdleNonNil(cs2.Fn, cs2.Instr.Block(), idleFld) {
+						okAll = false
+					}
+				}
+				R.Check(okAll, "R05.3", key+"|idle-only", P.Pos(cs.Pos()),
+					"immediate handling (in a helper of PushResponder) happens only while idleCh != nil",
+					"a helper of PushResponder handles a responder immediately without its call being dominated by idleCh != nil: an EXPUNGE could be produced outside IDLE/flush")
+				continue
+			}
 			if !c.isAnchor(top, "internal/state.(*State).flushResponses", "internal/state.(*State).PushResponder") {
 				R.Fail("R05.3", key, P.Pos(cs.Pos()), "Responder.handle (which mutates the snapshot and produces EXISTS/EXPUNGE/FETCH) is invoked outside flushResponses/PushResponder")
 				continue
@@ -608,7 +621,8 @@ func c05callers(c *Ctx) {
 				for top.Parent() != nil {
 					top = top.Parent()
 				}
-				okw := c.isAnchor(top, "internal/state.(*State).beginIdle", "internal/state.(*State).endIdle", "internal/state.NewState")
+				// the IDLE implementation: beginIdle / endIdle, or State.Idle itself when they are written inline
+				okw := c.isAnchor(top, "internal/state.(*State).beginIdle", "internal/state.(*State).endIdle", "internal/state.(*State).Idle", "internal/state.NewState")
 				R.Check(okw, "R05.3", fmtf("%s|store idleCh", c.name(f)), P.Pos(st.Pos()),
 					"State.idleCh written by beginIdle/endIdle", "State.idleCh is written outside beginIdle/endIdle: immediate (expunge-permitting) delivery could be active outside IDLE")
 			}
@@ -798,16 +812,8 @@ func c05liveness(c *Ctx, pf map[*ssa.Function]int) {
 		}
 		R.Check(oks > 0, "R05.4", c.name(top)+"|has-tagged-OK", P.Pos(top.Pos()), "handler builds its tagged OK", "no tagged OK found in "+h+" (rule cannot be evaluated)")
 	}
-	// beginIdle: the store that arms idleCh is dominated by a flush(true)
-	if bi := c.fn("R05.4", "internal/state.(*State).beginIdle"); bi != nil {
-		fi := flushInstrs(bi, 0)
-		for _, r := range engine.Returns(bi) {
-			if len(r.Results) == 2 && engine.IsNilConst(engine.ResultOf(r, 1)) {
-				R.Check(!engine.ReachesAvoiding(bi, r, fi, nil), "R05.4", c.name(bi)+"|success-return", P.Pos(r.Pos()),
-					"IDLE starts by flushing with permitExpunge=true", "beginIdle can succeed without flushing pending expunges")
-			}
-		}
-	}
+	// IDLE: the store that arms idleCh is dominated by a flush(true), wherever it is written
+	c.idleArmedAfterFullFlush("R05.4")
 }
 
 func c05issued(c *Ctx, roots []*ssa.Function) {
@@ -1150,4 +1156,38 @@ func holdBackFunction(pop *ssa.Function) (*ssa.Function, map[engine.Edge]bool, m
 		}
 		pop, permit = next, nil
 	}
+}
+
+// dominatedByIdleNonNil: block blk of f is dominated by the non-nil edge of a nil test of State.idleCh.
+func (c *Ctx) dominatedByIdleNonNil(f *ssa.Function, blk *ssa.BasicBlock, idleFld *types.Var) bool {
+	for _, b := range f.Blocks {
+		iff := engine.IfOf(b)
+		if iff == nil {
+			continue
+		}
+		bin, isBin := iff.Cond.(*ssa.BinOp)
+		if !isBin {
+			continue
+		}
+		var other ssa.Value
+		if engine.IsNilConst(bin.Y) {
+			other = bin.X
+		} else if engine.IsNilConst(bin.X) {
+			other = bin.Y
+		} else {
+			continue
+		}
+		ld, isLd := other.(*ssa.UnOp)
+		if !isLd || !fieldAddrIs(ld.X, idleFld) {
+			continue
+		}
+		nonNilIx := 1
+		if bin.Op.String() == "!=" {
+			nonNilIx = 0
+		}
+		if engine.EdgeDominates(b, nonNilIx, blk) {
+			return true
+		}
+	}
+	return false
 }
